@@ -145,7 +145,7 @@ Definition match_1d (nrm tol : Q) (sc : scaling)
 (* ---------------- triangulations (2-D): the loop around shapely ---------------- *)
 Section Triangulations.
   (* shapely: poly_1.intersection(poly_2[j]) *)
-  Variable is_polygon : nat -> nat -> bool.   (* isinstance(isect, Polygon) *)
+  Variable is_polygon : nat -> nat -> bool.   (* isinstance(isect, Polygon) or isect.area > 0 *)
   Variable isect_area : nat -> nat -> Q.      (* isect.area *)
   Variable candidate : nat -> nat -> bool.    (* j not outside the bounding box of i *)
 
